@@ -77,12 +77,14 @@ public:
 )",
             // clang-format on
             fmt::arg("tag", ctx_manager->get(*schema).tag),
-            fmt::arg("package", schema->package),
+            fmt::arg("package", utils::escape_literal(schema->package)),
             fmt::arg("id", schema->id),
             fmt::arg("version", schema->version),
-            fmt::arg("semantic_version", schema->semantic_version),
+            fmt::arg(
+                "semantic_version",
+                utils::escape_literal(schema->semantic_version)),
             fmt::arg("endian", utils::byte_order_to_endian(schema->byte_order)),
-            fmt::arg("description", schema->description),
+            fmt::arg("description", utils::escape_literal(schema->description)),
             fmt::arg(
                 "header_type",
                 utils::make_alias_template(
@@ -266,7 +268,7 @@ public:
             // clang-format on
             fmt::arg("tag", context.tag),
             fmt::arg("name", t.name),
-            fmt::arg("description", t.description),
+            fmt::arg("description", utils::escape_literal(t.description)),
             fmt::arg("presence", utils::presence_to_string(t.presence)),
             fmt::arg("length", t.length),
             fmt::arg(
@@ -276,11 +278,13 @@ public:
                 "primitive_type",
                 utils::make_type_alias(
                     "primitive_type", context.underlying_type)),
-            fmt::arg("semantic_type", t.semantic_type),
+            fmt::arg("semantic_type", utils::escape_literal(t.semantic_type)),
             fmt::arg("since_version", t.added_since),
             fmt::arg("value_type", make_value_type(t)),
             fmt::arg("min_max_null_values", make_min_max_null_values(t)),
-            fmt::arg("character_encoding", t.character_encoding.value_or("")),
+            fmt::arg(
+                "character_encoding",
+                utils::escape_literal(t.character_encoding.value_or(""))),
             fmt::arg("deprecated_impl", make_deprecated(t.deprecated_since)),
             fmt::arg("traits_tag", make_traits_tag(t)));
     }
@@ -324,7 +328,7 @@ public:
             // clang-format on
             fmt::arg("tag", context.tag),
             fmt::arg("name", e.name),
-            fmt::arg("description", e.description),
+            fmt::arg("description", utils::escape_literal(e.description)),
             fmt::arg(
                 "offset_impl",
                 make_offset_impl(e.offset, context.offset_in_composite)),
@@ -387,7 +391,8 @@ public:
                 // clang-format on
                 fmt::arg("tag", value_context.tag),
                 fmt::arg("name", value.name),
-                fmt::arg("description", value.description),
+                fmt::arg(
+                    "description", utils::escape_literal(value.description)),
                 fmt::arg("since_version", value.added_since),
                 fmt::arg("enum_type", enum_context.public_type),
                 fmt::arg(
@@ -442,7 +447,7 @@ public:
             // clang-format on
             fmt::arg("tag", context.tag),
             fmt::arg("name", s.name),
-            fmt::arg("description", s.description),
+            fmt::arg("description", utils::escape_literal(s.description)),
             fmt::arg(
                 "offset_impl",
                 make_offset_impl(s.offset, context.offset_in_composite)),
@@ -504,7 +509,8 @@ public:
                 // clang-format on
                 fmt::arg("tag", context.tag),
                 fmt::arg("name", choice.name),
-                fmt::arg("description", choice.description),
+                fmt::arg(
+                    "description", utils::escape_literal(choice.description)),
                 fmt::arg("since_version", choice.added_since),
                 fmt::arg("index", choice.value),
                 fmt::arg(
@@ -556,7 +562,7 @@ public:
     {deprecated_impl}
     {value_type}
 
-    static constexpr std::size_t size_bytes() noexcept
+    static constexpr ::std::size_t size_bytes() noexcept
     {{
         return {size};
     }}
@@ -569,8 +575,8 @@ public:
             // clang-format on
             fmt::arg("tag", context.tag),
             fmt::arg("name", c.name),
-            fmt::arg("description", c.description),
-            fmt::arg("semantic_type", c.semantic_type),
+            fmt::arg("description", utils::escape_literal(c.description)),
+            fmt::arg("semantic_type", utils::escape_literal(c.semantic_type)),
             fmt::arg(
                 "offset_impl",
                 make_offset_impl(c.offset, context.offset_in_composite)),
@@ -708,16 +714,30 @@ public:
         // size parameter name). By adding `_<depth>` suffix we ensure that
         // there will be no two identical parameter names because each level has
         // unique suffix which is used only in case of conflicts.
-        if(std::find(
-               std::begin(existing_names),
-               std::end(existing_names),
-               desired_name)
-           != std::end(existing_names))
+        const auto is_used = [&existing_names](const std::string& name)
         {
-            return fmt::format("{}_{}", desired_name, level_depth);
+            return std::find(
+                       std::begin(existing_names),
+                       std::end(existing_names),
+                       name)
+                   != std::end(existing_names);
+        };
+
+        if(!is_used(desired_name))
+        {
+            return desired_name;
         }
 
-        return desired_name;
+        // two paths of the same depth can be joined into the same name so the
+        // suffix is increased until the result is really unique
+        for(auto n = level_depth;; n++)
+        {
+            auto name = fmt::format("{}_{}", desired_name, n);
+            if(!is_used(name))
+            {
+                return name;
+            }
+        }
     }
 
     std::string get_group_payload_size(
@@ -1086,10 +1106,10 @@ public:
             // clang-format on
             fmt::arg("tag", context.tag),
             fmt::arg("name", m.name),
-            fmt::arg("description", m.description),
+            fmt::arg("description", utils::escape_literal(m.description)),
             fmt::arg("id", m.id),
             fmt::arg("block_length", context.actual_block_length),
-            fmt::arg("semantic_type", m.semantic_type),
+            fmt::arg("semantic_type", utils::escape_literal(m.semantic_type)),
             fmt::arg("since_version", m.added_since),
             fmt::arg(
                 "value_type",
@@ -1185,7 +1205,7 @@ public:
             fmt::arg("tag", context.tag),
             fmt::arg("name", f.name),
             fmt::arg("id", f.id),
-            fmt::arg("description", f.description),
+            fmt::arg("description", utils::escape_literal(f.description)),
             fmt::arg(
                 "presence", utils::presence_to_string(context.actual_presence)),
             fmt::arg("offset_impl", make_offset_impl(context.level_offset)),
@@ -1270,10 +1290,10 @@ public:
             // clang-format on
             fmt::arg("tag", group_context.tag),
             fmt::arg("name", g.name),
-            fmt::arg("description", g.description),
+            fmt::arg("description", utils::escape_literal(g.description)),
             fmt::arg("id", g.id),
             fmt::arg("block_length", group_context.actual_block_length),
-            fmt::arg("semantic_type", g.semantic_type),
+            fmt::arg("semantic_type", utils::escape_literal(g.semantic_type)),
             fmt::arg("since_version", g.added_since),
             fmt::arg(
                 "value_type",
@@ -1362,7 +1382,7 @@ public:
             // clang-format on
             fmt::arg("tag", context.tag),
             fmt::arg("name", d.name),
-            fmt::arg("description", d.description),
+            fmt::arg("description", utils::escape_literal(d.description)),
             fmt::arg("id", d.id),
             fmt::arg("since_version", d.added_since),
             fmt::arg("value_type", context.impl_type),
